@@ -12,7 +12,7 @@ TECHNIQUE = "Hypothesis-generated screens, k-fold save/load round trip compared 
 RULE = (
     "screens (>=1 row, arity 1..3) with unicode/empty/unequal-length names, '' control, any plate-atomic mask, observations "
     "incl. NaN/denormal/-0.0/inf behind and in front of the mask; half of them sub-screens carrying the mappings of a strict "
-    "superset; 1..3 consecutive save/load cycles; ExperimentSpace.from_screen saved/loaded too. Non-trivial = mapping strictly "
+    "superset; 1..3 consecutive save/load cycles; 4% of the cases are long screens (1000..9001 rows, thorough tier also 65537/70001; up to 20000 treatment names, 5000 samples, 4500 plates) whose longest and multi-byte names sit at drawn, mostly late, positions; ExperimentSpace.from_screen saved/loaded too. Non-trivial = mapping strictly "
     "larger than the rows' own encoding, or a non-ASCII or empty name; afterwards the same object is changed in place (set_observed, Plate.merge), saved and loaded again. distinct = distinct case JSON."
 )
 ASSUMPTIONS = [
@@ -29,7 +29,59 @@ def budgets(tier):
 
 
 @st.composite
+def _long(draw, sizes=(4095, 4096, 4097, 5000, 8192, 8193, 9001)):
+    """a long screen, described by parameters (rows are built in _long_sc): thousands of rows, and the longest / the only
+    multi-byte names of each kind sit at drawn positions (often late in the arrays)"""
+    n = draw(st.one_of(st.sampled_from(sizes), st.integers(1000, 9000)))
+    return {
+        "n_rows": n,
+        "arity": draw(st.sampled_from([1, 2, 2, 3])),
+        "n_names": draw(st.sampled_from([3, 50, 3000, 20000])),
+        "n_samples": draw(st.sampled_from([2, 40, 5000])),
+        "n_plates": draw(st.sampled_from([2, 30, 4500])),
+        # (kind, relative position in [0,1], extra length, suffix)
+        "special": draw(
+            st.lists(
+                st.tuples(st.sampled_from(["t", "s", "p"]), st.sampled_from([0.0, 0.5, 0.9, 0.999, 1.0]), st.integers(1, 40), st.sampled_from(["-resistant", "\u00fc\u00df", "\u4e2d", ""])),
+                min_size=1,
+                max_size=4,
+            )
+        ),
+        "control": draw(st.sampled_from(["", "DMSO"])),
+    }
+
+
+def _long_sc(g):
+    n, a = g["n_rows"], g["arity"]
+    rows = []
+    for i in range(n):
+        rows.append(
+            {
+                "s": "s%d" % (i % g["n_samples"]),
+                "p": "p%d" % ((i // 3) % g["n_plates"]),
+                "t": ["t%d" % ((i * a + j) % g["n_names"]) for j in range(a)],
+                "d": [0.5 * (1 + (i + j) % 3) for j in range(a)],
+                "o": 0.25 + (i % 7) / 16.0,
+            }
+        )
+    for kind, pos, extra, suffix in g["special"]:
+        i = min(n - 1, int(pos * (n - 1)))
+        if kind == "t":
+            rows[i]["t"][-1] = rows[i]["t"][-1] + "x" * extra + suffix
+        else:
+            # every row of that sample / plate is renamed, so the plate stays one plate
+            old, new_ = rows[i][kind], rows[i][kind] + "x" * extra + suffix
+            for r in rows[i:] if pos > 0 else rows:
+                if r[kind] == old:
+                    r[kind] = new_
+    observed = sorted({r["p"] for r in rows[: n // 2 : 5]})
+    return {"arity": a, "control": g["control"], "rows": rows, "observed": observed}
+
+
+@st.composite
 def _case(draw):
+    if draw(st.integers(0, 24)) == 0:
+        return {"long": draw(_long()), "cycles": 1, "superset": False}
     sc = draw(S.screen_case(min_rows=1, max_rows=12, obs=S.any_obs))
     case = {"screen": sc, "cycles": draw(st.integers(1, 3)), "superset": draw(st.booleans())}
     if case["superset"]:
@@ -39,6 +91,13 @@ def _case(draw):
 
 def strategy(tier):
     return _case()
+
+
+def exhaustive(tier):
+    # fixed long screens: block sizes 2**12 and 2**16 crossed, the longest names in the last rows
+    sizes = [4097, 9000] if tier == "quick" else [4097, 9000, 65537, 70001]
+    for n in sizes:
+        yield {"long": {"n_rows": n, "arity": 2, "n_names": 20000, "n_samples": 5000, "n_plates": 4500, "special": [["t", 1.0, 9, "-liposomal"], ["s", 0.999, 10, "-resistant"], ["p", 0.999, 3, "\u00fc"]], "control": "DMSO"}, "cycles": 1, "superset": False}
 
 
 def observables(s):
@@ -55,6 +114,14 @@ def observables(s):
     }
 
 
+def _first_difference(x, y):
+    if x.shape != y.shape or x.size <= 40:
+        return "%r -> %r" % (x.tolist() if x.size <= 40 else x.shape, y.tolist() if y.size <= 40 else y.shape)
+    xs, ys = [repr(v) for v in x.ravel().tolist()], [repr(v) for v in y.ravel().tolist()]
+    bad = [i for i in range(len(xs)) if xs[i] != ys[i]]
+    return "%d of %d entries differ, first at flat position %d: %s -> %s" % (len(bad), len(xs), bad[0], xs[bad[0]], ys[bad[0]]) if bad else "dtype %s -> %s" % (x.dtype, y.dtype)
+
+
 def compare_screens(a, b, prefix, plate_mapping=True):
     require(type(b.control_treatment_name) in (str, np.str_) and str(a.control_treatment_name) == str(b.control_treatment_name), prefix + ".control_name", lambda: "control name %r -> %r" % (a.control_treatment_name, b.control_treatment_name))
     oa, ob = observables(a), observables(b)
@@ -66,7 +133,7 @@ def compare_screens(a, b, prefix, plate_mapping=True):
             ok = S.same_bits(x, y)
         else:
             ok = x.shape == y.shape and np.array_equal(x, y) and (x.dtype.kind == y.dtype.kind)
-        require(ok, prefix + "." + k, lambda: "%s changed: %r -> %r" % (k, x.tolist(), y.tolist()))
+        require(ok, prefix + "." + k, lambda: "%s changed: %s" % (k, _first_difference(x, y)))
     require(S.mapping_equal(a.treatment_mapping, b.treatment_mapping), prefix + ".treatment_mapping", lambda: "treatment mapping changed: %r -> %r" % ([list(map(str, a.treatment_mapping[0])), list(a.treatment_mapping[1]), list(a.treatment_mapping[2])], [list(map(str, b.treatment_mapping[0])), list(b.treatment_mapping[1]), list(b.treatment_mapping[2])]))
     require(S.mapping_equal(a.sample_mapping, b.sample_mapping), prefix + ".sample_mapping", lambda: "sample mapping changed: %r -> %r" % ([list(map(str, a.sample_mapping[0])), list(a.sample_mapping[1])], [list(map(str, b.sample_mapping[0])), list(b.sample_mapping[1])]))
     if plate_mapping:
@@ -76,7 +143,7 @@ def compare_screens(a, b, prefix, plate_mapping=True):
 def check_case(case):
     from batchie.data import Screen, ExperimentSpace
 
-    sc = case["screen"]
+    sc = _long_sc(case["long"]) if "long" in case else case["screen"]
     strict = False
     if case["superset"]:
         sup = S.build_screen(dict(sc, observed=[]), rows=sc["rows"] + case["extra"])
@@ -140,6 +207,8 @@ def check_case(case):
     allnames = [r["s"] for r in sc["rows"]] + [r["p"] for r in sc["rows"]] + [t for r in sc["rows"] for t in r["t"]]
     exotic = any((not n.isascii()) or n == "" for n in allnames)
     labels = ["cycles=%d" % case["cycles"]]
+    if "long" in case:
+        labels.append("rows>=%d" % (2 ** int(np.log2(len(sc["rows"])))))
     if strict:
         labels.append("strict-superset-mapping")
     if exotic:
